@@ -174,5 +174,27 @@ long strtol(const char *nptr, char **endptr, int base)
 }
 #endif
 
+#ifdef VM_STRTOD_CONTRACT
+/* strtod as a contract: any end pointer inside the string, any value, optional range error */
+double strtod(const char *nptr, char **endptr)
+{
+	size_t len = 0, k;
+	int range;
+	double v;
+
+	while (nptr[len])
+		len++;
+	k = nondet_ulong();
+	__CPROVER_assume(k <= len);
+	if (endptr)
+		*endptr = (char *)nptr + k;
+	range = nondet_int();
+	if (range)
+		errno = ERANGE;
+	v = nondet_double();
+	return k == 0 ? 0.0 : v;
+}
+#endif
+
 #endif /* __CPROVER__ */
 #endif
